@@ -62,6 +62,50 @@ func ItemIndependence(p *load.Program, rel string) *report.RuleResult {
 				})
 				return found
 			}
+			// locals the body defines, with what they are computed from: `nullable, ok := n.(*T); n = nullable.Expr`
+			// builds the new n from the old one through nullable
+			derived := map[*types.Var][]ast.Expr{}
+			ast.Inspect(body, func(m ast.Node) bool {
+				if as, ok := m.(*ast.AssignStmt); ok && as.Tok == token.DEFINE {
+					for i, l := range as.Lhs {
+						if id, ok := l.(*ast.Ident); ok {
+							if dv, ok := info.Defs[id].(*types.Var); ok {
+								if len(as.Lhs) == len(as.Rhs) {
+									derived[dv] = append(derived[dv], as.Rhs[i])
+								} else {
+									derived[dv] = append(derived[dv], as.Rhs...)
+								}
+							}
+						}
+					}
+				}
+				return true
+			})
+			direct := mentions
+			var mentionsVia func(e ast.Expr, v *types.Var, depth int) bool
+			mentionsVia = func(e ast.Expr, v *types.Var, depth int) bool {
+				if direct(e, v) {
+					return true
+				}
+				if depth > 4 {
+					return false
+				}
+				found := false
+				ast.Inspect(e, func(m ast.Node) bool {
+					if id, ok := m.(*ast.Ident); ok && !found {
+						if dv, ok := info.Uses[id].(*types.Var); ok {
+							for _, src := range derived[dv] {
+								if mentionsVia(src, v, depth+1) {
+									found = true
+								}
+							}
+						}
+					}
+					return !found
+				})
+				return found
+			}
+			mentions = func(e ast.Expr, v *types.Var) bool { return mentionsVia(e, v, 0) }
 			ast.Inspect(body, func(m ast.Node) bool {
 				switch as := m.(type) {
 				case *ast.AssignStmt:
